@@ -41,6 +41,9 @@ Init ==
   \/ \E n \in {65535, 65536} : c = [op |-> "query", text |-> Txt, params |-> [ParamsOf(1, 2, 1) EXCEPT !.values = <<"nulls", n>>], tracing |-> 0]
   \/ \E n \in {65535, 65536, 65537} : c = [op |-> "execute", id |-> <<"rep", 5, 16>>, meta_id |-> <<0, <<"rep", 9, 0>>>>, params |-> [ParamsOf(1, 2, 1) EXCEPT !.values = <<"nulls_row", n>>], tracing |-> 0]
   \/ \E n \in {65535, 65536} : c = [op |-> "query", text |-> <<"rep", 113, n>>, params |-> ParamsOf(5, 2, 1), tracing |-> 1]
+  \* values given by NAME (a map) to bind markers some of which carry the same name: one value per marker, in marker order
+  \/ \E names \in {<<"a">>, <<"a", "b">>, <<"b", "a">>, <<"a", "b", "a">>, <<"a", "a">>, <<"c", "a", "b", "a", "c">>} : \E m \in {"btree", "hash"} :
+       c = [op |-> "execute", id |-> <<"rep", 5, 16>>, meta_id |-> <<0, <<"rep", 9, 0>>>>, params |-> [ParamsOf(1, 2, 1) EXCEPT !.values = <<"named", names, m>>], tracing |-> 0]
   \/ \E ev \in {<< >>, <<"TOPOLOGY_CHANGE", "STATUS_CHANGE", "SCHEMA_CHANGE">>, <<"STATUS_CHANGE">>} : c = [op |-> "register", events |-> ev, tracing |-> 0]
   \/ c = [op |-> "options", tracing |-> 0]
   \/ \E n \in {0, 5, 300} : c = [op |-> "auth", token |-> <<"rep", 200, n>>, tracing |-> 0]
